@@ -82,6 +82,16 @@ def corpus_sequences():
         # plausible batched read), 24 resumptions queued in one turn
         ["L100000"] + ["t%d+" % i for i in range(1, 24)] + ["t24!"] + ["g%d:%d+" % (100 + i, i) for i in range(1, 24)] + ["g124:24!"],
         ["L2"] + ["g%d:%d+" % (i, i) for i in range(1, 8)] + ["g8:8!"] + ["t%d+" % (20 + i) for i in range(1, 8)] + ["t28!"],
+        # REQUEUE path (session 4c, seed C08-8): one stale hand-off, no other reader pending, 2 / 5 later gives of the same
+        # sender queued behind it in the same run phase, nothing taken before the loop handles the stale message; then ONE
+        # receiver (label 5, sequential takes) must see give order (per_sender_order_requeue)
+        ["L100000", "t0", "a0", "g9:1+", "g9:2+", "g9:3!", "t5", "t5", "t5"],
+        ["L100000", "g9:1", "t5", "t0", "a0", "g9:2+", "g9:3+", "g8:4+", "g9:5+", "g9:6+", "g9:7!", "t5", "t5", "t5", "t5", "t5", "t5"],
+        # the classification cases that the unchanged tree does NOT keep in order (known finding reorder-stale-reader):
+        # two stale hand-offs in flight at once, both requeued at the head in pipe order (2 overtakes 1) ...
+        ["L100000", "t0", "t1", "a0", "a1", "g9:1+", "g9:2+", "g9:3!", "t5", "t5", "t5"],
+        # ... and a later item taken before the stale message is handled
+        ["L100000", "t0", "a0", "g9:1+", "g9:2+", "t5+", "g9:3!", "t5", "t5"],
     ]
 
 
@@ -157,6 +167,157 @@ def gen_sequence(rng, s_after_close=False):
     return ops
 
 
+def gen_requeue_sequence(rng):
+    """family `requeue` (session 4c): reaches the requeue branch of janet_thread_chan_cb (stale read message, no other reader
+    pending) with >= 2 later gives of the same sender queued behind the returned item; one receiver label takes everything
+    sequentially afterwards.  Optional clean traffic before, a second sender interleaved in the burst."""
+    ops = ["L100000"]
+    nx = 0
+    recv = 50 + rng.below(5)
+    stale = 10 + rng.below(5)
+    sender = 30 + rng.below(5)
+    other = 40 + rng.below(5)
+    for _ in range(rng.below(4)):           # clean traffic first: give + take, drained
+        nx += 1
+        ops.append("g%d:%d" % (rng.choice([sender, other]), nx))
+        ops.append("t%d" % recv)
+    ops += ["t%d" % stale, "a%d" % stale]
+    later = rng.range(2, 9)
+    burst = ["g%d:%d" % (sender, nx + 1)]
+    nx += 1
+    n_same = 0
+    while n_same < later:
+        nx += 1
+        if rng.chance(1, 5):
+            burst.append("g%d:%d" % (other, nx))
+        else:
+            burst.append("g%d:%d" % (sender, nx))
+            n_same += 1
+    ops += [b + "+" for b in burst[:-1]] + [burst[-1] + "!"]
+    ops += ["t%d" % recv] * len(burst)
+    return ops
+
+
+def order_oracle(s0, a):
+    """Per-sender order per receiver LABEL on one single-loop history (implementation trace only, no model), and the
+    classification of a reorder by the branch of janet_thread_chan_cb that handled the stale hand-off, reconstructed from
+    the history by a book-keeping mirror (who was pending, what was in the pipe at each drain).
+    Only for histories of g/t/a ops with a large capacity in which receiver labels are reused sequentially only.
+    -> list of (sig, why)"""
+    s = [o.rstrip("+!") for o in s0]
+    if s[0] != "L100000" or any(o[0] not in "gta" for o in s[1:]):
+        return []
+    try:
+        last = a.split(" ; ")[-1]
+        dl = last.split(" d=")[1].split(" w=")[0]
+        deliv = [(p.split(":")[0], int(p.split(":")[1])) for p in dl.split(",") if p]
+    except (ValueError, IndexError):
+        return []
+    # give order per sender
+    gidx, sender_of = {}, {}
+    for k, o in enumerate(s[1:]):
+        if o[0] == "g":
+            f, x = o[1:].split(":")
+            gidx[int(x)] = k
+            sender_of[int(x)] = f
+    # mirror: pending readers, pipe, per item: how did it come back
+    pending, pipe, qn = [], [], 0
+    inflight_stale = set()
+    dirty = set()          # items for which a later hand-out happened while they were in flight to a stale reader
+    branch = {}            # item -> "requeue" | "redispatch"
+    nrequeue = 0
+    multi = set()          # items requeued while an earlier requeued item may still be queued / several in one drain
+
+    def handout():
+        dirty.update(inflight_stale)
+
+    def drain():
+        nonlocal qn, nrequeue
+        i = 0
+        while i < len(pipe):
+            e, x = pipe[i]
+            i += 1
+            if not e["stale"]:
+                inflight_stale.discard(x)
+                continue
+            if pending:
+                e2 = pending.pop(0)
+                pipe.append((e2, x))
+                branch[x] = "redispatch"
+            else:
+                branch.setdefault(x, "requeue")
+                if nrequeue:
+                    multi.add(x)
+                nrequeue += 1
+                inflight_stale.discard(x)
+                qn += 1
+        del pipe[:]
+
+    labels_busy = {}
+    for o0 in s0[1:]:
+        o = o0.rstrip("+!")
+        k = o[0]
+        if k == "t":
+            f = o[1:]
+            if labels_busy.get(f):
+                return []      # two live fibers under one receiver label: no per-label order claim
+            if qn > 0:
+                qn -= 1
+                handout()
+            else:
+                e = {"f": f, "stale": False}
+                pending.append(e)
+                labels_busy[f] = e
+        elif k == "a":
+            f = o[1:]
+            e = labels_busy.get(f)
+            if e:
+                e["stale"] = True
+                labels_busy[f] = None
+        else:
+            x = int(o[1:].split(":")[1])
+            if pending:
+                e = pending.pop(0)
+                pipe.append((e, x))
+                if e["stale"]:
+                    inflight_stale.add(x)
+                else:
+                    handout()
+                    labels_busy[e["f"]] = None
+            else:
+                qn += 1
+        if not o0.endswith("+"):
+            # a live entry whose fiber is cancelled after the dispatch is stale at the drain as well (same dict)
+            drain()
+    out = []
+    has_ab = any(o[0] == "a" for o in s)
+    seen = {}
+    for f, x in deliv:
+        if x not in gidx:
+            continue
+        key = (f, sender_of[x])
+        prev = seen.get(key)
+        if prev is not None and gidx[prev] > gidx[x]:
+            # x was given BEFORE prev by the same sender, receiver f got it after prev
+            if branch.get(x) == "requeue" and x not in dirty and x not in multi and prev not in branch:
+                out.append(("reorder-requeued-item",
+                            "single-loop history `%s`: sender %s gave %d before %d, receiver %s took %d first.  Item %d had been handed to a reader "
+                            "that abandoned its wait; when janet_thread_chan_cb found the hand-off stale NO other reader was pending (requeue "
+                            "branch, not re-dispatch), no later item had left the channel yet and no other stale hand-off was outstanding: the item "
+                            "must go back to the FRONT of channel->items (per_sender_order_requeue), it was queued behind the later gives"
+                            % (" ".join(s0), sender_of[x], x, prev, f, prev, x)))
+            else:
+                why = ("re-dispatched to another pending reader" if branch.get(x) == "redispatch" else
+                       "requeued after a later item had already left the channel" if x in dirty else
+                       "several stale hand-offs outstanding, each requeued at the head in pipe order" if (x in multi or prev in branch) else "no stale hand-off involved")
+                out.append(("reorder-stale-reader" if has_ab else "reorder",
+                            "single-loop history `%s`: sender %s gave %d before %d, receiver %s took %d first (%s)" % (" ".join(s0), sender_of[x], x, prev, f, prev, why)))
+            break
+        if prev is None or gidx[x] > gidx[prev]:
+            seen[key] = x
+    return out
+
+
 def run_impl(janet, jp, sp, timeout=240):
     """-> (output lines, rc or None if killed by the hang detector, stderr tail)"""
     try:
@@ -215,8 +376,11 @@ def compare(ctx, janet, exe, seqs, flags):
         if a != b:
             diffs.append({"ops": " ".join(s0), "impl": a, "model": b})
         # direct oracle on the implementation trace (no model involved)
-        if "c" not in s and a != b:
-            pass
+        for osig, owhy in order_oracle(s0, a):
+            cov["order_" + osig] = cov.get("order_" + osig, 0) + 1
+            impl_oracle_failures.append({"sig": osig, "ops": " ".join(s0), "observed": a, "why": owhy})
+        if s[0] == "L100000" and any(o.startswith("t") for o in s[1:]) and len(set(o for o in s[1:] if o[0] == "t")) < sum(1 for o in s[1:] if o[0] == "t"):
+            cov["order_checked_histories"] = cov.get("order_checked_histories", 0) + 1
         if "c" not in s:
             try:
                 int(a.split(" ; ")[-1].split(" ")[0]); a.split(" ; ")[-1].split(" d=")[1]
